@@ -1,6 +1,7 @@
 """E2 driver: run a SymReal harness built from /repo's current headers, turn its dump into SMT-LIB queries for z3-new,
 fall back to exact-rational evaluation for counterexamples, replay candidates on the double instantiation."""
-import os, re, sys, json, time, random, math, hashlib
+import os, re, sys, json, time, random, math, hashlib, threading
+_DLOCK = threading.RLock()
 from fractions import Fraction
 from . import common as C
 
@@ -55,6 +56,9 @@ class Dump:
                 p = ln.split(' ', 5)
                 rec = {'lhs': int(p[1]), 'rhs': int(p[2]), 'shl': float.fromhex(p[3]), 'shr': float.fromhex(p[4]), 'label': p[5] if len(p) > 5 else '', 'rel': 'le' if p[0] == 'LE' else 'eq'}
                 (cur['wit'] if p[0] == 'NEQW' else cur['eqs']).append(rec)
+            elif ln.startswith('DEQ '):
+                p = ln.split(' ', 6)
+                cur.setdefault('deqs', []).append({'f': int(p[1]), 'rhs': int(p[2]), 'shf': float.fromhex(p[3]), 'shr': float.fromhex(p[4]), 'var': p[5], 'label': p[6] if len(p) > 6 else ''})
             elif ln.startswith('NOTE '):
                 cur['notes'].append(ln[5:])
             elif ln.startswith('FACT '):
@@ -63,6 +67,78 @@ class Dump:
                 self.cases.append(cur); cur = None
             elif ln.startswith('STATS'):
                 self.stats = ln
+
+    # ---- symbolic differentiation of the term DAG (new nodes get fresh ids)
+    def _new(self, tup):
+        key = tup
+        with _DLOCK:
+            if not hasattr(self, '_hc'):
+                self._hc = {}; self._next = max(self.nodes) + 1 if self.nodes else 0
+            if key in self._hc:
+                return self._hc[key]
+            i = self._next; self._next += 1; self.nodes[i] = tup; self._hc[key] = i
+            return i
+
+    def _const(self, fr):
+        return self._new(('C', Fraction(fr)))
+
+    def _is0(self, i):
+        return self.nodes[i][0] == 'C' and self.nodes[i][1] == 0
+
+    def _is1(self, i):
+        return self.nodes[i][0] == 'C' and self.nodes[i][1] == 1
+
+    def _mk(self, op, a, b=0):
+        if op == '+':
+            if self._is0(a):
+                return b
+            if self._is0(b):
+                return a
+        if op == '-':
+            if self._is0(b):
+                return a
+            if self._is0(a):
+                return self._mk('~', b)
+        if op == '*':
+            if self._is0(a) or self._is0(b):
+                return self._const(0)
+            if self._is1(a):
+                return b
+            if self._is1(b):
+                return a
+        if op == '/':
+            if self._is0(a):
+                return self._const(0)
+            if self._is1(b):
+                return a
+        if op == '~':
+            if self._is0(a):
+                return a
+            return self._new(('~', a, 0))
+        return self._new((op, a, b))
+
+    def deriv(self, root, var):
+        memo = {}
+        for i in self.cone([root]):
+            n = self.nodes[i]; op = n[0]
+            if op == 'C':
+                memo[i] = self._const(0)
+            elif op == 'V':
+                memo[i] = self._const(1 if n[1] == var else 0)
+            elif op in '+-':
+                memo[i] = self._mk(op, memo[n[1]], memo[n[2]])
+            elif op == '*':
+                memo[i] = self._mk('+', self._mk('*', memo[n[1]], n[2]), self._mk('*', n[1], memo[n[2]]))
+            elif op == '/':
+                if self._is0(memo[n[2]]):
+                    memo[i] = self._mk('/', memo[n[1]], n[2])
+                else:
+                    memo[i] = self._mk('/', self._mk('-', self._mk('*', memo[n[1]], n[2]), self._mk('*', n[1], memo[n[2]])), self._mk('*', n[2], n[2]))
+            elif op == '~':
+                memo[i] = self._mk('~', memo[n[1]])
+            else:
+                raise ValueError('cannot differentiate through sqrt')
+        return memo[root]
 
     def cone(self, roots):
         need = set(); stack = list(roots)
@@ -244,6 +320,15 @@ def decide_case(d, case, workdir, timeout=60, rnd=None, split_timeout=None, max_
     plus case-level info"""
     rnd = rnd or random.Random(0)
     res = []
+    for dq in case.get('deqs', []):
+        if dq.get('done'):
+            continue
+        dq['done'] = True
+        try:
+            dn = d.deriv(dq['f'], dq['var'])
+            case['eqs'].append({'lhs': dn, 'rhs': dq['rhs'], 'shl': None, 'shr': dq['shr'], 'label': dq['label'], 'rel': 'eq', 'deriv': dq['var']})
+        except ValueError as ex:
+            case['eqs'].append({'lhs': dq['rhs'], 'rhs': dq['rhs'], 'shl': dq['shr'], 'shr': dq['shr'], 'label': dq['label'] + ' [NOT DIFFERENTIABLE: ' + str(ex) + ']', 'rel': 'eq'})
     info = {'pcs': len(case['pcs']), 'pcs_ok': True, 'witness_ok': True, 'queries': 0, 'solver_s': 0.0, 'cone': 0, 'divisors_assumed_nonzero': 0}
     allroots = []
     for (op, a, b) in case['pcs']:
@@ -263,6 +348,8 @@ def decide_case(d, case, workdir, timeout=60, rnd=None, split_timeout=None, max_
         # printer cross-check: exact/shadow agreement of every root
         for e in case['eqs'] + case['wit']:
             for side, sh in ((e['lhs'], e['shl']), (e['rhs'], e['shr'])):
+                if sh is None:
+                    continue
                 ex = float(val[side])
                 if abs(ex - sh) > 1e-6 * max(1.0, abs(ex), abs(sh)):
                     info.setdefault('shadow_mismatch', []).append((e['label'], ex, sh))
